@@ -5,21 +5,121 @@
 //! long recursive derivations, which the reference interpreter keeps alive per level.
 
 use crate::ast::{Term, VarId};
-use std::collections::BTreeMap;
+use std::sync::Arc;
 
-#[derive(Clone, Debug, Default, PartialEq, Eq)]
-pub struct Subst(pub BTreeMap<VarId, Term>);
+/// Persistent map VarId -> Term: a binary trie over the key bits (least significant first) with
+/// path copying, so that `clone` is O(1) and `insert`/`get` are O(log n). The depth-first
+/// reference interpreter keeps one substitution per pending state; with an ordinary map every
+/// unification step copies all bindings, which makes a recursion n levels deep cost O(n^2)
+/// allocations. A leaf sits at the shallowest depth at which its key prefix is unique, so the
+/// shape depends on the key set only.
+#[derive(Clone, Debug)]
+enum Node {
+    Leaf(VarId, Term),
+    Branch(Option<Arc<Node>>, Option<Arc<Node>>),
+}
+
+#[derive(Clone, Debug, Default)]
+pub struct Subst {
+    root: Option<Arc<Node>>,
+    len: usize,
+}
+
+fn bit(k: VarId, depth: u32) -> bool {
+    (k >> depth) & 1 == 1
+}
+
+fn insert_node(n: &Option<Arc<Node>>, depth: u32, k: VarId, v: Term) -> Arc<Node> {
+    match n {
+        None => Arc::new(Node::Leaf(k, v)),
+        Some(node) => match &**node {
+            Node::Leaf(k2, v2) => {
+                if *k2 == k {
+                    Arc::new(Node::Leaf(k, v))
+                } else {
+                    // split: push the old leaf one level down, then insert again
+                    let old = Some(Arc::new(Node::Leaf(*k2, v2.clone())));
+                    let branch = if bit(*k2, depth) { Node::Branch(None, old) } else { Node::Branch(old, None) };
+                    insert_node(&Some(Arc::new(branch)), depth, k, v)
+                }
+            }
+            Node::Branch(l, r) => {
+                if bit(k, depth) {
+                    Arc::new(Node::Branch(l.clone(), Some(insert_node(r, depth + 1, k, v))))
+                } else {
+                    Arc::new(Node::Branch(Some(insert_node(l, depth + 1, k, v)), r.clone()))
+                }
+            }
+        },
+    }
+}
+
+impl PartialEq for Subst {
+    fn eq(&self, other: &Subst) -> bool {
+        self.len == other.len && self.entries() == other.entries()
+    }
+}
+impl Eq for Subst {}
 
 impl Subst {
     pub fn new() -> Subst {
-        Subst(BTreeMap::new())
+        Subst { root: None, len: 0 }
+    }
+
+    pub fn get(&self, k: VarId) -> Option<&Term> {
+        let mut cur = self.root.as_ref()?;
+        let mut depth = 0;
+        loop {
+            match &**cur {
+                Node::Leaf(k2, v) => return if *k2 == k { Some(v) } else { None },
+                Node::Branch(l, r) => {
+                    cur = if bit(k, depth) { r.as_ref()? } else { l.as_ref()? };
+                    depth += 1;
+                }
+            }
+        }
+    }
+
+    pub fn insert(&mut self, k: VarId, v: Term) {
+        if self.get(k).is_none() {
+            self.len += 1;
+        }
+        self.root = Some(insert_node(&self.root, 0, k, v));
+    }
+
+    pub fn len(&self) -> usize {
+        self.len
+    }
+
+    /// all bindings, sorted by key
+    pub fn entries(&self) -> Vec<(VarId, Term)> {
+        fn walk(n: &Option<Arc<Node>>, out: &mut Vec<(VarId, Term)>) {
+            if let Some(node) = n {
+                match &**node {
+                    Node::Leaf(k, v) => out.push((*k, v.clone())),
+                    Node::Branch(l, r) => {
+                        walk(l, out);
+                        walk(r, out);
+                    }
+                }
+            }
+        }
+        let mut out = vec![];
+        walk(&self.root, &mut out);
+        out.sort_by_key(|e| e.0);
+        out
+    }
+
+    /// bound variables, ascending
+    pub fn keys(&self) -> Vec<VarId> {
+        self.entries().into_iter().map(|e| e.0).collect()
     }
 
     /// Resolve the top of a term: follow variable bindings until an unbound variable or a
     /// non-variable term is reached.
     fn top<'a>(&'a self, mut t: &'a Term) -> &'a Term {
         while let Term::Var(v) = t {
-            match self.0.get(v) {
+            match self.get(*v) {
                 Some(b) => t = b,
                 None => break,
             }
@@ -81,7 +181,7 @@ pub fn unify_in(s: &mut Subst, a: &Term, b: &Term) -> bool {
             if s.occurs(*x, t) {
                 false
             } else {
-                s.0.insert(*x, t.clone());
+                s.insert(*x, t.clone());
                 true
             }
         }
